@@ -53,10 +53,13 @@ def snapshot_context(context: Context) -> Context:
     for ctx_dict_index in reversed(range(len(context.dicts))):
         ctx_dict = context.dicts[ctx_dict_index]
 
-        # This layer is already copied, reuse this and all before it
+        # This layer is already copied, reuse all layers before it
         if isinstance(ctx_dict, CopiedDict):
-            # NOTE: +1 because we want to include the current layer
-            dicts_with_copied_forloops = context.dicts[: ctx_dict_index + 1] + dicts_with_copied_forloops
+            # NOTE: The topmost copied layer is the one that tags like `{% firstof ... as var %}` may still
+            #       write to after this snapshot was taken, so we copy it too and reuse only the layers below it.
+            dicts_with_copied_forloops = (
+                context.dicts[:ctx_dict_index] + [CopiedDict(ctx_dict)] + dicts_with_copied_forloops
+            )
             break
 
         # Copy the dict
